@@ -131,6 +131,10 @@ class MultiMarker(BaseMarker):
                 common_markers = [
                     marker for marker in self.markers if marker in shared_markers
                 ]
+                if unique_union.is_any() and len(common_markers) == 1:
+                    # `Any & x` hands x back untouched: do not return a
+                    # one-element conjunction
+                    return common_markers[0]
                 return unique_union & MultiMarker(*common_markers)
 
         return None
